@@ -364,6 +364,7 @@ def make_point(rng, MODE="gregorian"):
         if k.endswith("_decimal") and tk.get("hour_of_day") != 24:
             d = rng.randint(1, 6)
             tk[k] = rng.choice((0.5, 0.999999, 0.000001, 0.1, 0.25,
+                                0.999996, 0.999998, 0.999995, 0.99999,
                                 rng.randrange(10 ** d) / 10 ** d))
     kw.update(tk)
     off = gen.rand_offset(rng)
@@ -403,6 +404,30 @@ def workload(ctx, repo):
                         ctx.case = case
                         ctx.ev("cases.new-year-dumps")
                         run_case(ctx, repo, case)
+    # sub-hour offsets of either sign dumped with sub-hour literal zones of
+    # either sign
+    if ctx.worker == 0:
+        for poff in ((0, 30), (0, -30), (0, 45), (0, -15), (0, 0)):
+            for lit in ((0, 30), (0, -30), (0, -45), (0, 15)):
+                for rep in gen.REPS:
+                    kw = gen.date_kwargs("gregorian", rep, R.ymd_to_rd(
+                        "gregorian", 2024, 3, 10))
+                    kw.update({"hour_of_day": 6, "minute_of_hour": 15,
+                               "second_of_minute": 30})
+                    kw.update(gen.zone_kwargs(poff))
+                    ext = rep != "ord"
+                    fmt = DATE_FMT[(rep, ext)] + (
+                        "Thh:mm:ss" if ext else "Thhmmss") + T.enc_zone(
+                            lit, "hhmm", ext)
+                    case = {"op": "custom", "p": kw, "fmt": fmt,
+                            "mode": "gregorian", "reader": 0,
+                            "spec": {"rep": rep, "ext": ext, "nexp": 0,
+                                     "smallest": "hms",
+                                     "zkind": "literal-zone",
+                                     "target_off": lit[0] * 60 + lit[1]}}
+                    ctx.case = case
+                    ctx.ev("cases.sub-hour-literal-zones")
+                    run_case(ctx, repo, case)
     n = 18000 if ctx.tier == "quick" else 60000
     for k in range(n):
         mode = R.MODES[k % 4] if k % 5 == 0 else "gregorian"
